@@ -204,8 +204,17 @@ def handle (op : String) (args : List String) (impl : String) : String :=
     match bytesOfHex h with
     | some _ => answer "ok" (if isPanicObs impl then "fails:" ++ clsBuilderPanic else "holds") "meta"
     | none => badReq "hex"
+  | "layout", [l] =>
+    -- several destinations in one package: `build()` succeeds iff every destination can be split (add_data),
+    -- whatever the shape of the tree; never a panic
+    match (l.splitOn ",").mapM bytesOfHex with
+    | some ds =>
+      let allOk := ds.all fun d => match addDataRaw d with | .ok _ => true | _ => false
+      let m := if allOk then "ok" else "err:InvalidDestinationPath"
+      answer m (if isPanicObs impl then "fails:" ++ clsBuilderPanic else "holds") s!"layout-{min ds.length 4}-{if allOk then "ok" else "err"}"
+    | none => badReq "hex"
   | _, _ => badReq "op"
 
-def ops : List String := ["dest", "pcomps", "pparent", "pfilename", "pstrip", "pjoin", "level", "levelnb", "tsset", "capsset", "meta"]
+def ops : List String := ["layout", "dest", "pcomps", "pparent", "pfilename", "pstrip", "pjoin", "level", "levelnb", "tsset", "capsset", "meta"]
 
 end RpmVerif.Driver.C17
